@@ -12,7 +12,9 @@ import (
 func (w *world) restart() {
 	verifrt.Reboot()
 	w.repo = w.newRepo()
+	verifrt.MapOrders(true) // the directory is listed in any order
 	w.repo.DeleteTempFilesIfExist()
+	verifrt.MapOrders(false)
 }
 
 // inForce: does a lookup for (CN=I1, s) currently say revoked?
